@@ -244,7 +244,10 @@ Module Fe.
 Record label := { fl_idx : option Z; fl_explicit : bool; fl_val : Z }.
 
 (* f_ri: the user wrote read_<idx> (reads the hardware index); f_wi: 0 no write_<idx>, 1 user method stores and
-   returns None, 2 user method stores and returns the stored index *)
+   returns None, 2 user method stores and returns the stored index, 3 (or more) user method follows the script of the
+   fake driver (state field scr, first matching entry): requested index k -> Some k' : the hardware sets k' instead (a range
+   that is locked out falls back to another one), the method stores and returns k'; -> None : the method raises
+   (HardwareError) before anything is stored; no entry: k is taken over *)
 Record layout := { f_labels : list label; f_ri : bool; f_wi : nat }.
 
 Fixpoint indices (next : Z) (ls : list label) : list Z :=
@@ -276,8 +279,12 @@ Fixpoint closest_from (v bk bd : Z) (d : list (Z * Z)) : Z :=
 Definition closest (v : Z) (d : list (Z * Z)) : Z :=
   match d with [] => 0%Z | (k, x) :: r => closest_from v k (Z.abs (x - v)) r end.
 
-Record state := { ci : Z; cf : Z; hwi : Z; evs : list ev }.
+Record state := { ci : Z; cf : Z; hwi : Z; scr : list (Z * option Z); evs : list ev }.
 (* parameter ids: 0 the float parameter, 1 the index parameter *)
+
+Definition set_hwi (s : state) (k : Z) : state := {| ci := ci s; cf := cf s; hwi := k; scr := scr s; evs := evs s |}.
+Definition set_scr (s : state) (l : list (Z * option Z)) : state :=
+  {| ci := ci s; cf := cf s; hwi := hwi s; scr := l; evs := evs s |}.
 
 (* FloatEnumParam.__get__ : valuedict[index parameter value] *)
 Definition shown (L : layout) (s : state) : Z := match vlookup (ci s) (vdict L) with Some v => v | None => 0%Z end.
@@ -285,45 +292,74 @@ Definition shown (L : layout) (s : state) : Z := match vlookup (ci s) (vdict L) 
 (* announceUpdate(idx, k): store, callback trigger_setter announces the float parameter with its derived value,
    then the index update is sent *)
 Definition ann_idx (L : layout) (k : Z) (s : state) : state :=
-  let s1 := {| ci := k; cf := cf s; hwi := hwi s; evs := evs s |} in
+  let s1 := {| ci := k; cf := cf s; hwi := hwi s; scr := scr s; evs := evs s |} in
   let f := shown L s1 in
-  {| ci := k; cf := f; hwi := hwi s; evs := (1, [k]) :: (0, [f]) :: evs s |}.
+  {| ci := k; cf := f; hwi := hwi s; scr := scr s; evs := (1, [k]) :: (0, [f]) :: evs s |}.
 
 Definition ann_float (v : Z) (s : state) : state :=
-  {| ci := ci s; cf := v; hwi := hwi s; evs := (0, [v]) :: evs s |}.
+  {| ci := ci s; cf := v; hwi := hwi s; scr := scr s; evs := (0, [v]) :: evs s |}.
 
-(* wrapped write_<idx> *)
-Definition write_idx (L : layout) (k : Z) (s : state) : state :=
-  let s1 := match f_wi L with O => s | _ => {| ci := ci s; cf := cf s; hwi := k; evs := evs s |} end in
-  ann_idx L k s1.
+Fixpoint slookup (k : Z) (l : list (Z * option Z)) : option (option Z) :=
+  match l with [] => None | (k', a) :: r => if Z.eqb k k' then Some a else slookup k r end.
+
+(* the user method write_<idx>(k) of the fake driver: None = it raised, Some (state, index it stored = what the wrapper
+   announces: the returned index, or the requested one when the method returns None / does not exist) *)
+Definition drv_write (L : layout) (k : Z) (s : state) : option (state * Z) :=
+  match f_wi L with
+  | 0 => Some (s, k)
+  | 1 | 2 => Some (set_hwi s k, k)
+  | _ => match slookup k (scr s) with
+         | None => Some (set_hwi s k, k)
+         | Some (Some k') => Some (set_hwi s k', k')
+         | Some None => None
+         end
+  end.
+
+(* wrapped write_<idx>: a raising user method changes nothing (the wrapper re-raises before announcing); otherwise the
+   index really set is announced and returned *)
+Definition write_idx (L : layout) (k : Z) (s : state) : state * option Z :=
+  match drv_write L k s with
+  | None => (s, None)
+  | Some (s1, k') => (ann_idx L k' s1, Some k')
+  end.
 
 Inductive op :=
 | WriteF (v : Z) | WriteI (k : Z)
 | ReadF (client : bool)       (* client: the reply is the cached value; driver: the value read_<float>() returns *)
 | ReadI
-| SetI (k : Z) | SetF (v : Z)  (* driver assignments *)
-| HwI (k : Z).
+| SetI (k : Z) | SetF (v : Z)  (* driver assignments (SetI = the driver announces the index) *)
+| HwI (k : Z)
+| Script (l : list (Z * option Z)).   (* the script of the fake driver changes *)
 
+(* code 1: RangeError of the datatype, code 3: HardwareError raised by the scripted write_<idx> *)
 Definition step (L : layout) (s : state) (o : op) : state * res :=
   let d := vdict L in
   match o with
   | WriteF v =>
+      (* generated write_<float>: write_<idx>(closest index); return getattr(mobj, <float>), i.e. the table value of
+         the index that is current AFTER write_<idx>; the wrapper announces the returned value *)
       if (v <? vmin d)%Z || (vmax d <? v)%Z then (s, RErr 1)
-      else let s1 := write_idx L (closest v d) s in
-           let r := shown L s1 in (ann_float r s1, ROk [r])
-  | WriteI k => (write_idx L k s, ROk [k])
+      else match write_idx L (closest v d) s with
+           | (s1, None) => (s1, RErr 3)
+           | (s1, Some _) => let r := shown L s1 in (ann_float r s1, ROk [r])
+           end
+  | WriteI k => match write_idx L k s with
+                | (s1, None) => (s1, RErr 3)
+                | (s1, Some k') => (s1, ROk [k'])
+                end
   | ReadF client => (s, ROk [if client then cf s else shown L s])
   | ReadI => if f_ri L then (ann_idx L (hwi s) s, ROk [hwi s]) else (s, ROk [ci s])
   | SetI k => (ann_idx L k s, ROk [])
   | SetF v => (ann_float v s, ROk [])
-  | HwI k => ({| ci := ci s; cf := cf s; hwi := k; evs := evs s |}, ROk [])
+  | HwI k => (set_hwi s k, ROk [])
+  | Script l => (set_scr s l, ROk [])
   end.
 
 (* initial caches: index = first enum member, float = FloatRange(min, max).default *)
 Definition init (L : layout) : state :=
   let d := vdict L in
   let i0 := match indices 0%Z (f_labels L) with i :: _ => i | [] => 0%Z end in
-  {| ci := i0; cf := if (vmin d <=? 0)%Z && (0 <=? vmax d)%Z then 0%Z else vmin d; hwi := i0; evs := [] |}.
+  {| ci := i0; cf := if (vmin d <=? 0)%Z && (0 <=? vmax d)%Z then 0%Z else vmin d; hwi := i0; scr := []; evs := [] |}.
 
 Definition run (L : layout) (ops : list op) : state := fold_left (fun s o => fst (step L s o)) ops (init L).
 
